@@ -456,3 +456,9 @@ def ToksC(a, k):
 def CharPhase(a, k):
     # '+' and '-' set the sign, every 'i' multiplies by i (so '-i' is 3, '+i' and 'i' are 1)
     return 0 if k <= 0 else (0 if a[k - 1] == 43 else (2 if a[k - 1] == 45 else (CharPhase(a, k - 1) + 1 if a[k - 1] == 105 else CharPhase(a, k - 1))))
+
+
+@spec('int1', ret='int1')
+def Drop2(x):
+    # x[2:]: a Pauli string without its first qubit
+    return [x[c + 2] for c in range(len(x) - 2)]
